@@ -288,9 +288,21 @@ def _shard(seq, shard, nshards):
     return seq[shard::nshards]
 
 
+def check_key_lists(ctx, which):
+    """the two columns of the ordered key table as the module publishes them"""
+    got = getattr(keys, which, None)
+    want = T.MAJOR_KEYS if which == "major_keys" else T.MINOR_KEYS
+    ctx.check(isinstance(got, list) and list(got) == list(want), "key-table/" + which, lambda: "keys.%s = %r, expected %r" % (which, got, want))
+    ctx.note_case(True, ["key-table"])
+
+
+CHECKS["key_lists"] = check_key_lists
+
+
 def sub_keys(ctx, shard, n):
     ctx.exhaustive("keys: 15 major + 15 minor", "all", len(T.ALL_KEYS))
     ctx.enumerate("key", check_key, T.ALL_KEYS)
+    ctx.enumerate("key_lists", check_key_lists, ["major_keys", "minor_keys"])
 
 
 def sub_order(ctx, shard, n):
